@@ -44,6 +44,8 @@ pub const SNIPPETS: &[Snippet] = &[
     s("gl:localfn-between", "local a# = @A\nlocal function h#() return a# end\nlocal b# = h#()\nlocal c# = @B\nemit(a#, b#, c#)"),
     s("gl:loop-capture", "for k# = 1, 2 do\n  local a# = k#\n  local b# = function() return a# + k# end\n  local c# = b#()\n  local d# = @A\n  emit(c#, d#)\nend"),
     s("gl:param-shadow", "local a# = @A\nlocal b# = function(a#) return a# end\nlocal c# = @B\nemit(a#, b#(5), c#)"),
+    s("gl:param-shadow-then-read", "local a# = @A\nlocal f#, i# = function(a#) return a# end, a#\nemit(f#(5), i#)\nlocal b# = get1()\nlocal t# = {function(b#, c) return b# end, b#}\nemit(t#[1](6), t#[2])\nlocal c# = @B\nlocal function pick#(g, v) return g(v) + v end\nlocal d# = pick#(function(c#) return c# + 1 end, c#)\nemit(d#)"),
+    s("gl:param-shadow-nested-read", "local a# = @A\nlocal g# = function() local h = function(a#) return a# end return h(1) + a# end\nemit(g#())\nlocal x#, y# = @B, @C\nlocal k#, r# = function(y#) return y# end, x# + y#\nemit(k#(1), r#)"),
     s("gl:field-name", "local a# = @A\nlocal b# = {a# = @B}\nlocal c# = b#.a#\nlocal d# = @C\nemit(a#, c#, d#)"),
     s("gl:table-values", "local t# = {x = @A}\nlocal u# = {y = @B, z = get1()}\nlocal v# = u#.y + t#.x\nemit(t#.x, u#.y, u#.z, v#)"),
     s("gl:nested-blocks", "local a# = @A\nlocal b# = @B\nif flag1() then\n  local c# = get1()\n  local d# = get2()\n  emit(c#, d#)\nelse\n  local e# = @C\n  local f# = e#\n  emit(e#, f#)\nend\nemit(a#, b#)"),
@@ -62,6 +64,8 @@ pub const SNIPPETS: &[Snippet] = &[
     s("lf:shadow-inside", "local function q#() local q# = @A return q# end\nemit(q#())"),
     s("lf:variadic", "local function v#(...) return select('#', ...), ... end\nemit(v#(), v#(1, nil), v#(@A, @B, @C))"),
     s("lf:recursive-nested", "local function r#(n)\n  local function inner() if n > 0 then return r#(n - 1) end return 'done' end\n  return inner()\nend\nemit(r#(2))"),
+    s("lf:recursive-after-shadowing-closure", "local function r#(n)\n  local k = function(r#) return r# end\n  if n > 0 then return r#(n - 1) end\n  return k(n)\nend\nemit(r#(2))\nlocal function w#(n)\n  emit((function(w#, z) return w# end)(n, 1))\n  if n > 0 then return w#(n - 1) + 1 end\n  return 0\nend\nemit(w#(2))"),
+    s("lf:recursive-after-shadowing-local", "local function q#(n)\n  local function inner(q#) return q# end\n  for q# = 1, 1 do emit(q#) end\n  do local q# = inner(n) emit(q#) end\n  if n > 0 then return q#(n - 1) end\n  return inner(n)\nend\nemit(q#(1))"),
     s("lf:field-not-var", "local function f#(t) return t.f# end\nemit(f#({f# = @A}))"),
     s("lf:redeclared", "local function f#() return 1 end\nlocal g# = f#\nlocal function f#() return g#() + 1 end\nemit(f#())"),
     s("lf:upvalue-counter", "local n# = 0\nlocal function inc#() n# = n# + 1 return n# end\ninc#() inc#()\nemit(inc#(), n#)"),
@@ -84,6 +88,7 @@ pub const SNIPPETS: &[Snippet] = &[
     s("mc:shadowed", "local o# = {name = 'outer'}\nfunction o#:who() return self.name end\ndo\n  local o# = {name = 'inner', who = o#.who}\n  emit(o#:who())\nend\nlocal function f#(o#) return o#:who() end\nemit(o#:who(), f#({name = 'param', who = o#.who}))"),
     s("mc:effects", "local o# = {v = @A}\nfunction o#:get(d) return self.v + d end\nlocal function mk#() emit('mk') return o# end\nlocal box# = {o = o#}\nemit(mk#():get(1), box#.o:get(2), box#['o']:get(3), (mk#()):get(4), ((o#)):get(5))"),
     s("mc:double-paren", "local o# = {v = @A}\nfunction o#:get(d) return self.v + d end\nlocal function mk#() emit('mk') return o# end\nlocal box# = {o#}\nlocal function key#() emit('key') return 1 end\nemit(((mk#())):get(1), ((box#[key#()])):get(2), (((o#))):get(3), ((mk#())):get(get1()))\n((mk#())):get(4)"),
+    s("mc:receiver-effects", "local o# = {v = @A}\nfunction o#:get(d) return self.v + (d or 0) end\nlocal function mk#() emit('mk') return o# end\nlocal function key#() emit('key') return 'o' end\nlocal function sfx#() emit('sfx') return 'x' end\nlocal box# = setmetatable({}, {__index = function(t, k) emit('index', k) return o# end})\nlocal neg# = setmetatable({}, {__unm = function(a) emit('unm') return o# end, __concat = function(a, b) emit('concat') return 'cc' end})\nemit((box#[key#()]):get(1), (box#.o):get(2), (mk#() or o#):get(3), (flag1() and o# or mk#()):get(4), ('a' .. sfx#()):upper(), ({get = o#.get, v = get1()}):get(5), (-neg#):get(6), (neg# .. 'y'):upper())\ndo (box#[key#()]):get(7) end\nlocal function va#(...) return (...):get(8), (mk#()):get(9) end\nemit(va#(o#, 1))"),
     s("mc:args", "local o# = {}\nfunction o#.s(self, str) return #str end\nfunction o#.t(self, tb) return #tb end\nfunction o#.va(self, ...) return select('#', ...) end\nlocal function w#(...) return o#:va(...) end\nemit(o#:s'abc', o#:t{1, 2, 3}, o#:va(get1(), get2()), w#(1, 2, 3), o#:va((w#())))"),
     s("mc:index-handler", "local proto# = {hello = function(self, x) emit(self ~= nil, x) return x end}\nlocal p# = setmetatable({}, {__index = function(t, k) emit('index', k) return proto#[k] end})\nemit(p#:hello(1))\np#:hello(2)"),
     s("mc:global", "G# = {v = @A}\nfunction G#:m(x) return self.v + x end\nemit(G#:m(1), (G#):m(2))"),
@@ -91,6 +96,7 @@ pub const SNIPPETS: &[Snippet] = &[
     s("mc:loop-var", "local list# = {{v = 1}, {v = 2}}\nfor _, it# in ipairs(list#) do\n  it#.get = function(self) return self.v end\n  emit(it#:get())\nend"),
     s("receiver-reassigned", "local other# = {tag = 'other'}\nlocal recv#\nrecv# = setmetatable({tag = 'recv'}, {__index = function(t, k) recv# = other# return function(self) return self.tag end end})\nemit(recv#:probe())"),
     s("mc:assigned-harmless", "local o# = {v = 1}\nfunction o#:get() return self.v end\no# = {v = 2, get = o#.get}\nemit(o#:get())"),
+    l("mc:receiver-effects-luau", "local o# = {v = @A}\nfunction o#:get(d) return self.v + (d or 0) end\nlocal function mk#() emit('mk') return 1 end\nlocal ts# = setmetatable({}, {__tostring = function(a) emit('tostring') return 'obj' end})\nemit((`a{mk#()}`):upper(), (`{get1()}`):rep(2), (`<{ts#}>`):upper(), (`{ts#}{mk#()}`):len())\ndo (`b{mk#()}`):upper() end\nlocal function mo#() emit('mo') return o# end\nemit((if flag1() then mo#() else o#):get(1), (mo#() :: any):get(2), ((`{mk#()}`)):rep(1))"),
     l("mc:luau", "local o# = {v = @A}\nfunction o#:get(d: number): number return self.v + d end\nlocal r# = if flag1() then o#:get(1) else (o#):get(2)\nemit(r#, `{o#:get(3)}`)"),
     // ---------------- convert_square_root_call
     s("sq:basic", "emit(math.sqrt(@S), math.sqrt(2.25), math.sqrt(0), math.floor(math.sqrt(@S)))"),
